@@ -163,6 +163,12 @@ def operand_histories():
             cfg["nan_at"] = [["kxx" if cfg["form"] == "components"
                               else "Kdown3", [4, 5, 4]]]
         out.append(dict(cfg=cfg, ops=ops))
+        if k in ("Weyl_Psi", "Psi4_lm", "Weyl_invariants"):
+            # the tetrad-dependent keys: both tetrad choices, finite data
+            for tet in ("fluid", "quasi-Kinnersley"):
+                c2 = dict(cfg, tetrad=tet, extra_inputs=["vel"])
+                c2.pop("nan_at", None)
+                out.append(dict(cfg=c2, ops=ops))
     return out
 
 
